@@ -21,6 +21,7 @@ import (
 	"fmt"
 	"io"
 	"sort"
+	"strings"
 	"sync"
 	"time"
 
@@ -68,6 +69,9 @@ type Event struct {
 	Post   []Obj  `json:"post"`
 	Err    string `json:"err"` // none | diff | stale | apply-delete | apply-upsert | setup
 	ErrMsg string `json:"errmsg"`
+	// ErrClass names the reason of a rejected write for the finding signature only (never for a verdict):
+	// unique-name | graph-validation | other
+	ErrClass string `json:"errclass"`
 	Writes int    `json:"writes"` // raft commands submitted to the secondary
 	Case   Case   `json:"case"`
 }
@@ -248,6 +252,12 @@ func mkPolicy(k, c int) *structs.ACLPolicy {
 		p.Name += "-renamed"
 	case 6:
 		p.Datacenters = []string{"dc1", "dc2"}
+	case 7:
+		p.Name = "shared-name" // a name that moves from one policy to another (unique per datacenter)
+	case 8: // 8 and 9 differ in Name and Description but not in Name+Description
+		p.Description = "xbase"
+	case 9:
+		p.Name += "x"
 	default:
 		p.Description = fmt.Sprintf("variant-%d", c)
 	}
@@ -270,6 +280,12 @@ func mkRole(k, c int) *structs.ACLRole {
 		r.Name += "-renamed"
 	case 6:
 		r.Policies = []structs.ACLRolePolicyLink{{ID: linkPolicyID}}
+	case 7:
+		r.Name = "shared-name" // a name that moves from one role to another (unique per datacenter)
+	case 8: // 8 and 9 differ in Name and Description but not in Name+Description
+		r.Description = "xbase"
+	case 9:
+		r.Name += "x"
 	default:
 		r.Description = fmt.Sprintf("variant-%d", c)
 	}
@@ -475,6 +491,14 @@ func Run(c Case) (ev *Event) {
 func (r *round) fail(class string, err error) {
 	if r.ev.Err == "none" {
 		r.ev.Err, r.ev.ErrMsg = class, err.Error()
+		switch {
+		case strings.Contains(err.Error(), "already exists"):
+			r.ev.ErrClass = "unique-name"
+		case strings.Contains(err.Error(), "cannot define subsets for external services"):
+			r.ev.ErrClass = "graph-validation"
+		default:
+			r.ev.ErrClass = "other"
+		}
 	}
 }
 
